@@ -25,7 +25,7 @@ TupSrc == {TTup(<<TList(TNum), TList(TNum)>>), TTup(<<TObj([a |-> TStr])>>), TTu
            \* tuples / objects whose members mix a collection kind with its structural look-alike (lists with tuples, maps with objects)
            TTup(<<TList(TStr), TTup(<<TStr, TStr>>)>>), TTup(<<TTup(<<TNum>>), TList(TNum)>>), TTup(<<TMap(TStr), TObj([a |-> TStr])>>),
            TObj([a |-> TMap(TNum), b |-> TObj([a |-> TNum])]),
-           TTup(<<TList(TStr), TTup(<<TStr, TStr>>), TDyn>>), TTup(<<TNum, TStr, TBool>>), TTup(<<TDyn, TNum>>), TObj([a |-> TDyn, b |-> TStr])}
+           TTup(<<TList(TStr), TTup(<<TStr, TStr>>), TDyn>>), TTup(<<TNum, TStr, TBool>>), TTup(<<TStr, TStr, TNum>>), TTup(<<TNum, TStr, TStr>>), TTup(<<TDyn, TNum>>), TObj([a |-> TDyn, b |-> TStr])}
 SrcTypes == (IF Thorough THEN VT \cup {TList(TDyn), TTup(<<TDyn>>)} ELSE PrimTypes \cup VT1 \cup TakeN(VT2, 8)) \cup TupSrc
 \* values: known / null, typed unknowns (refined), nested unknown / null / marked members, DynamicVal, typed-dynamic null
 ValsOf(t) == TakeN(AllVals(t), IF Thorough THEN 16 ELSE 8) \cup UnkVals(t)
